@@ -243,7 +243,7 @@ func actionCodeReplace(vnode *parser.RootVistor,
 	str = reg.ReplaceAllStringFunc(str, func(s string) string {
 		index := s[1:]
 		i, _ := strconv.Atoi(index)
-		return fmt.Sprintf("Dollar[%s].%s", index, pr.RighPart[i-1].Tag)
+		return fmt.Sprintf("Dollar[%d].%s", i, pr.RighPart[i-1].Tag)
 	})
 	return strComment + str + "\n"
 }
